@@ -40,8 +40,12 @@ def gen_case(task, i):
     vs = [dict(c, append_version=False, remove_labels=r.random() < 0.5) for c in CORNERS]
     if st == "terminating":
         # top-level code terminates and calls functions: every non-inlined vector must still stop
-        c, _ = workload.gen_program(ID, "defect:terminating_main", i, feats=dict(terminating_main=True))
-        src = c["src"]
+        if i % 5 == 4:
+            # helper inlined into a host whose name is a suffix of the helper's name, top-level code that ends
+            src = gen_shapes.suffix_program(r, terminating=True)
+        else:
+            c, _ = workload.gen_program(ID, "defect:terminating_main", i, feats=dict(terminating_main=True))
+            src = c["src"]
     elif st == "inlined":
         # terminating main, every function called exactly once -> all inlined under the default vector
         c, _ = workload.gen_program(ID, "defect:terminating_main", i, feats=dict(terminating_main=True), max_funcs=1)
